@@ -2,7 +2,7 @@
 From Coq Require Import Permutation.
 From Boltons Require Import Lib.Prelude Model.C17_Model Spec.C17_Spec Check.C17_Check
   Proofs.C17_Dict Proofs.C17_OTO Proofs.C17_M2M Proofs.C17_FD Proofs.C17_RefineOTO
-  Proofs.C17_RefineM2M Proofs.C17_RefineFD Proofs.C17_Agree Proofs.C17_Table Gen.C17_Gen.
+  Proofs.C17_RefineM2M Proofs.C17_RefineFD Proofs.C17_Agree Proofs.C17_Table Proofs.C17_SpecSound Gen.C17_Gen.
 
 (* OneToOne: after ANY history of instance creation (pairs, .unique, copies),
    []=, del, pop, popitem, clear, setdefault, update, |=, update-from-instance,
@@ -168,3 +168,20 @@ Print Assumptions C17_frozen_mutator_table.
 Theorem C17_oto_mutator_table : oto_table_ok gen_oto_table = true.
 Proof. exact gen_oto_table_ok. Qed.
 Print Assumptions C17_oto_mutator_table.
+
+(* What [holds] means: the boolean health predicates of the Spec, evaluated on the
+   lists python returned, are exactly the property text - unique keys on both
+   sides, no value under two keys, the two item lists transposed, inv.inv is the
+   object / same pairs transposed, no empty entry, no repeated member. *)
+Theorem C17_spec_oto_healthy_means : forall (f i : rel) (b : bool), oto_healthy (f, i, b) = true <->
+  NoDup (map fst f) /\ NoDup (map fst i) /\ NoDup (map snd f) /\
+  (forall k v, In (k, v) i <-> In (v, k) f) /\ b = true.
+Proof. exact oto_healthy_sound. Qed.
+Print Assumptions C17_spec_oto_healthy_means.
+
+Theorem C17_spec_m2m_healthy_means : forall (d i : sview) (b : bool), m2m_healthy (d, i, b) = true <->
+  (NoDup (map fst d) /\ forall k s, In (k, s) d -> s <> [] /\ NoDup s) /\
+  (NoDup (map fst i) /\ forall k s, In (k, s) i -> s <> [] /\ NoDup s) /\
+  (forall k v, (exists s, In (v, s) i /\ In k s) <-> (exists s, In (k, s) d /\ In v s)) /\ b = true.
+Proof. exact m2m_healthy_sound. Qed.
+Print Assumptions C17_spec_m2m_healthy_means.
